@@ -112,6 +112,7 @@ pub struct File {
     holder: core::sync::atomic::AtomicBool,
 }
 
+#[cfg(feature = "teardown")]
 impl Drop for File {
     fn drop(&mut self) {
         if self.holder.load(core::sync::atomic::Ordering::Relaxed) {
